@@ -154,7 +154,7 @@ def run(ctx):
         if published or failed:
             nontriv += 1
         for b in monitor(evs, desc["autosync"]):
-            violations.append({"what": b + (" (flush #%d failed with %s)" % fault if fault else ""),
+            violations.append({"what": b + (" (call #%d of the operation answered %s)" % fault if fault else ""),
                                "classification": {"kind": b.split(" ")[0] if " " in b else b, "what": " ".join(b.split(" ")[-6:-3]) if False else ("failed-flush" if "FAILED" in b else "unflushed" if "without a flush" in b else "writable" if "writable" in b else "after-visible"), "op": desc["op"].split()[0]},
                                "replay": {"kind": "trace", "scenario": lines, "fault": fault, "trace": [T.fmt(t) for t in T.canon(evs)][:90]}})
         if failed and published:
@@ -173,6 +173,10 @@ def run(ctx):
                     jobs.append((desc, lines, seqs[k], k, "EIO"))
                     if desc["size"] == "V":
                         jobs.append((desc, lines, seqs[k], k, "EINVAL"))      # "not supported here" is a failure too
+                elif t[0] in ("rename", "link") and desc["size"] == "V":
+                    # the value lives on another filesystem: whatever the library does about it
+                    # (today: create the directory and retry), what becomes visible must have been flushed
+                    jobs.append((desc, lines, seqs[k], k, "EXDEV"))
         if len(samples) < 4 and impl is not None and impl.steps and desc["situation"] == "secondary":
             samples.append({"case": desc, "trace": [T.fmt(t) for t in T.canon(impl.steps[0]["events"]) if t[0] in ("create", "write", "copy", "fsync", "fchmod", "chmod", "rename", "link")][:12]})
 
@@ -199,7 +203,7 @@ def run(ctx):
         if k not in seen:
             seen.add(k); uniq.append(v)
     cov = {"evaluations": len(res) + len(fres), "distinct_nontrivial": nontriv,
-           "rule": "publishing paths {set, put, set_temp_file, put_temp_file, ensure, get_or_update Replace / Promote} x {plain, sharded} x {miss, hit, secondary hit to promote, over capacity with maintenance, key present but evicted by the maintenance of this very write} x value sizes {1 B, empty, 4097 B in 3 chunks, 300 kB in 5 chunks} x auto_sync {on, off}, complete call trace of the operation, plus every flush failing in turn (EIO, and EINVAL as a filesystem without the operation would answer): a per-inode monitor (descriptor and name tracking through rename/link) requires a successful flush after the last write and before the publishing rename/link, no write bit at publication, no write/truncate/chmod/fchmod of an inode once visible, no publication after a failed flush; model/implementation trace agreement. Non-trivial = a publication or a failed flush occurs.",
+           "rule": "publishing paths {set, put, set_temp_file, put_temp_file, ensure, get_or_update Replace / Promote} x {plain, sharded} x {miss, hit, secondary hit to promote, over capacity with maintenance, key present but evicted by the maintenance of this very write} x value sizes {1 B, empty, 4097 B in 3 chunks, 300 kB in 5 chunks} x auto_sync {on, off}, complete call trace of the operation, plus every flush failing in turn (EIO, and EINVAL as a filesystem without the operation would answer) and every publishing rename / link answering EXDEV once (value on another filesystem): a per-inode monitor (descriptor and name tracking through rename/link) requires a successful flush after the last write and before the publishing rename/link, no write bit at publication, no write/truncate/chmod/fchmod of an inode once visible, no publication after a failed flush; model/implementation trace agreement. Non-trivial = a publication or a failed flush occurs.",
            "samples": samples, "traces_validated_against_impl": agree, "failing_flush_runs": len(fres)}
     if not ctx.quick():
         rc, o = C.coqchk(PROPS)
